@@ -26,10 +26,22 @@ func (x *TExec) opTAllocate(st *TStep) {
 	ui := x.userIdx(c, st)
 	t0 := time.Now()
 	x.w.gen.mu.Lock()
-	genBefore := len(x.w.gen.made)
+	genBefore, failedBefore := len(x.w.gen.made), x.w.gen.failed
 	x.w.gen.mu.Unlock()
 	resp, _ := x.request(c, c.ctrl, &c.rbuf, ui, m)
 	if x.stop || resp == nil {
+		return
+	}
+	x.w.gen.mu.Lock()
+	genFailed := x.w.gen.failed > failedBefore
+	x.w.gen.mu.Unlock()
+	if genFailed {
+		// the operator's relay address generator had nothing to give: refused, and nothing remains
+		if resp.Class == ref.ClassSuccess {
+			x.fail([]string{"C19", "C20"}, "allocate-success-without-relay", "TCP Allocate answered with success although the relay address generator failed")
+		}
+		x.St.inc("tcp:allocate-generator-failed")
+
 		return
 	}
 	if c.alloc != nil {
